@@ -1311,7 +1311,9 @@ class CFG:
 
     def materialize(self, max_length):
         "Return a `Chart` with this grammar's weighted language for strings ≤ `max_length`."
-        return self.cnf.language(max_length).filter(lambda x: len(x) <= max_length)
+        # a derivation of the empty string in CNF (S -> ε) has height one
+        depth = max(max_length, 1)
+        return self.cnf.language(depth).filter(lambda x: len(x) <= max_length)
 
     def to_bytes(self):
         """Convert terminal symbols from strings to bytes representation.
